@@ -1228,6 +1228,8 @@ class SymEval:
                 raise Unsupported('index on sample axis: %r' % (first,))
         else:
             keep_sample = False
+        if any(x is None for x in idx):
+            raise Unsupported('np.newaxis / None in an index of an array')
         if len(idx) > len(arr.shape):
             raise RuntimeFailure('too many indices for an array of %d dimensions'
                                  % (len(arr.shape) + (1 if arr.sample else 0)))
